@@ -100,8 +100,41 @@ fn householder<T: HS>(n: usize, v: &[i64]) -> DMatrix<T> {
         }
     })
 }
-/// n×n exact rational orthogonal matrix; seed 0 is the identity, seed 1 a cyclic permutation with a sign.
+/// rationally parametrised rotations (cover ALL rotations of the plane / of space except one of measure zero):
+/// 2x2: (1-k^2, 2k)/(1+k^2);  3x3: Euler-Rodrigues with parameters (1, b, c, d)
+pub fn parametrised<T: HS>(n: usize, tag: &str) -> Option<DMatrix<T>> {
+    let one = T::ratio(1, 1);
+    let two = T::ratio(2, 1);
+    match n {
+        1 => Some(DMatrix::from_element(1, 1, one)),
+        2 => {
+            let k = T::var(&format!("rot_{tag}_k"), 1, 3);
+            let den = one + k * k;
+            let (c, s) = ((one - k * k) / den, (two * k) / den);
+            Some(DMatrix::from_row_slice(2, 2, &[c, -s, s, c]))
+        }
+        3 => {
+            let (a, b, c, d) = (one, T::var(&format!("rot_{tag}_b"), 1, 2), T::var(&format!("rot_{tag}_c"), -1, 3), T::var(&format!("rot_{tag}_d"), 2, 5));
+            let nn = a * a + b * b + c * c + d * d;
+            let m = [
+                a * a + b * b - c * c - d * d, two * (b * c - a * d), two * (b * d + a * c),
+                two * (b * c + a * d), a * a - b * b + c * c - d * d, two * (c * d - a * b),
+                two * (b * d - a * c), two * (c * d + a * b), a * a - b * b - c * c + d * d,
+            ];
+            Some(DMatrix::from_row_slice(3, 3, &m.map(|x| x / nn)))
+        }
+        _ => None,
+    }
+}
+
+/// n×n exact rational orthogonal matrix; seed 0 is the identity, seed 1 a cyclic permutation with a sign;
+/// seed 9999: rationally parametrised rotation with SYMBOLIC parameters (n <= 3)
 pub fn orthogonal<T: HS>(n: usize, seed: u64) -> DMatrix<T> {
+    if seed >= 9999 {
+        if let Some(m) = parametrised::<T>(n, &format!("{seed}_{n}")) {
+            return m;
+        }
+    }
     if seed == 0 || n == 0 {
         return DMatrix::from_fn(n, n, |i, j| if i == j { T::ratio(1, 1) } else { T::ratio(0, 1) });
     }
